@@ -12,7 +12,7 @@ Extraction "model.ml"
   read_hosts hosts_lookup_host hosts_lookup_addr read_dnsmasq read_dhcpd lease_lookup_host lease_lookup_addr lease_lookup_mac
   append_uniq insert_sorted read_client_list str_lt
   update_ttl adjusted_response ttl_ok min_serves_ok
-  rstep rstate0 doh_resolve dns_resolve stored_of key_of_doh key_of_dns c06_ok serves_now
+  rstep rstate0 lastmod apply_stamps doh_resolve dns_resolve stored_of key_of_doh key_of_dns c06_ok serves_now
   mstep m0 get_obj spec_best find_best no_unreach c16_ok c04_ok c04_ok_multi
   activate_ops deactivate_ops apply_ops crash_activate crash_deactivate nameservers kept_lines
   apply_items save load parse_cmd
